@@ -650,8 +650,9 @@ def sle_invoke(s, solute, call, th, P=None):
         sle(solute, H=H, **kw)
 
 
-def sle_clauses(fails, ctx, th, names, solute, before, s, call, region, act_coef):
-    """Clauses on one finished call: only the solute moved, bounds, pure-solute rule."""
+def sle_clauses(fails, ctx, th, names, solute, before, s, call, region, act_coef, sol_tag=''):
+    """Clauses on one finished call: only the solute moved, bounds, pure-solute rule, solubility bound
+    (``sol_tag`` is appended to the region of the solubility clause only)."""
     i = names.index(solute)
     liq0, sol0 = before
     liq1, sol1 = sle_rows(s)
@@ -715,7 +716,7 @@ def sle_clauses(fails, ctx, th, names, solute, before, s, call, region, act_coef
         return
     nonideal = int(max(gam_inf, gam) >= NONIDEAL_GAMMA)
     ctx.cell(f'sle:solubility-clause-applied:nonideal={nonideal}')
-    region = f'{region},nonideal={nonideal}'
+    region = f'{region},nonideal={nonideal}{sol_tag}'
     xs = eutectic(T, c.Tm, c.Hfus, c.Cn.l(T), c.Cn.s(T), gam)
     if sol1[i] > 0:
         ctx.metric_max(f'sle.solubility:computed:rel-excess(saturated):{region.split(",", 2)[2]}', xl / xs - 1.0)
@@ -896,7 +897,6 @@ def prop_sle_history(ch, ctx):
     ctx.cell(f'sle.hist:ref={ref}')
     ctx.call('sle.call', sle_invoke, s, solute, call, th, region=region)
     fails = Failures(ctx)
-    sle_clauses(fails, ctx, th, names, solute, (bl, bs), s, call, region, 1.0 if ideal else None)
     rl, rs_ = sle_rows(s)
     fl, fs = sle_rows(f)
     F = float((bl + bs).sum())
@@ -905,6 +905,10 @@ def prop_sle_history(ch, ctx):
     ctx.metric_max(f'sle.history:resid/tol:hist={hist}', res)
     dT = abs(float(s.T) - float(f.T))
     ctx.metric_max(f'sle.history:dT:hist={hist}', dT)
+    # the solubility clause after a flagged history says whether the answer is the history-free one (ref=same: an
+    # excess is then a property of the call itself, like C15-F8/F10) or not (ref=diff: the history changed it)
+    sol_tag = '' if hist == 'plain' else (',ref=same' if (res <= 1.0 and dT <= 1e-2) else ',ref=diff')
+    sle_clauses(fails, ctx, th, names, solute, (bl, bs), s, call, region, 1.0 if ideal else None, sol_tag)
     fails.check(res <= 1.0 and dT <= 1e-2, f'sle.history|{region}|mismatch',
                 lambda: f'{names} solute={solute} history={shape}: after history l={rl.tolist()} s={rs_.tolist()} '
                         f'T={float(s.T)!r}; {ref} stream l={fl.tolist()} s={fs.tolist()} T={float(f.T)!r}; '
